@@ -4,7 +4,8 @@
 //!           "fuel": null|"<u64>", "ops": ["render","instructions","undeclared","ast","asks","sink"],
 //!           "sink": {"fail_at": k, "kind": "brokenpipe|other|wouldblock", "short": n},
 //!           "settings": {"trim_blocks":b,"lstrip_blocks":b,"keep_trailing_newline":b},
-//!           "recursion_limit": n, "debug": bool, "loader": {name: source | "!!ERR.."}, "path_join": bool}
+//!           "recursion_limit": n, "debug": bool, "loader": {name: source | "!!ERR.."}, "path_join": bool | "doc" | "prefix" | "lower",
+//!           "unknown_method": "decline" | "handle", "formatter": bool, "auto_escape": "none", "named_str": source}
 //! Each request runs on a fresh 2 MiB thread under catch_unwind with a watchdog; a hang makes
 //! the process print {"hang":true} and exit(3) so that the driver can restart after the case.
 use std::collections::BTreeMap;
@@ -17,6 +18,9 @@ use std::time::Duration;
 use minijinja::value::{Enumerator, Object, Value};
 use minijinja::{Environment, Error, UndefinedBehavior};
 use serde_json::{json, Value as J};
+
+#[path = "c05_common/callables.rs"]
+mod c05_callables;
 
 fn err_json(e: &Error) -> J {
     let mut chain = vec![];
@@ -89,6 +93,10 @@ impl Write for FailingSink {
 fn run(req: &J) -> J {
     let mut env = Environment::new();
     minijinja_contrib::add_to_environment(&mut env);
+    // C05 error-recovery families: host callables that call back into the engine and recover ("c05_callables": true)
+    if req.get("c05_callables").and_then(|x| x.as_bool()).unwrap_or(false) {
+        c05_callables::install(&mut env);
+    }
     if let Some(ub) = req.get("undefined").and_then(|x| x.as_str()) {
         env.set_undefined_behavior(match ub {
             "strict" => UndefinedBehavior::Strict,
@@ -134,7 +142,35 @@ fn run(req: &J) -> J {
             None => Ok(None),
         });
     }
-    if req.get("path_join").and_then(|x| x.as_bool()).unwrap_or(false) {
+    // "path_join": "prefix" - every referenced name is mapped to "p/<name>", whoever refers to it;
+    // "path_join": "lower" - every referenced name is lower-cased (arbitrary mappings, not path arithmetic)
+    match req.get("path_join").and_then(|x| x.as_str()) {
+        Some("prefix") => env.set_path_join_callback(|name, _parent| format!("p/{name}").into()),
+        Some("lower") => env.set_path_join_callback(|name, _parent| name.to_lowercase().into()),
+        _ => {}
+    }
+    // "unknown_method": "decline" - a callback that knows no method at all; "handle" - one that implements
+    // `.zz_handled()` on every value and declines everything else
+    match req.get("unknown_method").and_then(|x| x.as_str()) {
+        Some("decline") => env.set_unknown_method_callback(|_state, _value, _method, _args| Err(Error::from(minijinja::ErrorKind::UnknownMethod))),
+        Some("handle") => env.set_unknown_method_callback(|_state, _value, method, _args| {
+            if method == "zz_handled" {
+                Ok(Value::from("handled"))
+            } else {
+                Err(Error::from(minijinja::ErrorKind::UnknownMethod))
+            }
+        }),
+        _ => {}
+    }
+    // "formatter": true - a custom formatter that delegates to the default one;
+    // "auto_escape": "none" - an auto-escape callback that switches escaping off for every name
+    if req.get("formatter").and_then(|x| x.as_bool()).unwrap_or(false) {
+        env.set_formatter(|out, state, value| minijinja::escape_formatter(out, state, value));
+    }
+    if req.get("auto_escape").and_then(|x| x.as_str()) == Some("none") {
+        env.set_auto_escape_callback(|_name| minijinja::AutoEscape::None);
+    }
+    if req.get("path_join").and_then(|x| x.as_bool()).unwrap_or(false) || req.get("path_join").and_then(|x| x.as_str()) == Some("doc") {
         env.set_path_join_callback(|name, parent| {
             let mut rv = parent.split('/').collect::<Vec<_>>();
             rv.pop();
@@ -157,6 +193,18 @@ fn run(req: &J) -> J {
         .map(|a| a.iter().filter_map(|x| x.as_str()).collect())
         .unwrap_or_else(|| vec!["render"]);
     let ctxv = Value::from(minijinja::value::Serde(req.get("ctx").cloned().unwrap_or(J::Null)));
+    // "named_str": source - the main template is not stored: Environment::render_named_str(main, source, ctx)
+    if let Some(src) = req.get("named_str").and_then(|x| x.as_str()) {
+        let r = match env.render_named_str(main, src, ctxv.clone()) {
+            Ok(s) => json!({"ok": s}),
+            Err(e) => {
+                let _ = format!("{} {:#} {:?} {}", e, e, e, e.display_debug_info());
+                err_json(&e)
+            }
+        };
+        out.insert("render".into(), r);
+        return J::Object(out);
+    }
     let tmpl = match env.get_template(main) {
         Ok(t) => t,
         Err(e) => {
